@@ -90,10 +90,15 @@ def body_scalar(case):
     s = gen.make_scalar(case['s'])
     da = dense.contract(a.cores)
     scale = dense.scale_of(a.cores) * max(abs(s), 1.0)
-    for name, r in (('s*A', s * a), ('A*s', a * s)):
+    da = np.array(da)
+    for name, f in (('A*s', lambda: a * s), ('s*A', lambda: s * a), ('A*s again', lambda: a * s)):
+        r = f()
         require_consistent(r, 'scalar_consistent')
         close(dense.contract(r.cores), s * da, TOL, scale, 'scalar_value', name)
         require(r.row_dims == a.row_dims and r.col_dims == a.col_dims and r.ranks == a.ranks, 'scalar_dims', name)
+        # the product is a new tensor train: the operand still denotes A (otherwise `A*s - A` would be zero)
+        require(r is not a, 'scalar_value', name + ' handed back its operand')
+        close(dense.contract(a.cores), da, TOL, scale, 'scalar_value', 'the operand after ' + name)
     lab = gen.spec_labels(case['a'])
     lab.add('scalar:' + case['s'][0])
     if case['s'][0] in ('complex', 'np.complex128') and not case['a']['cplx']:
